@@ -325,6 +325,10 @@ class Order(list):
     last_cmd = -1
     last_commit_cmd = -1
 
+    def __init__(self, *a):
+        super().__init__(*a)
+        self.per_db = {}
+
 
 class DbHistory:
     def __init__(self, name):
@@ -375,6 +379,15 @@ def _parse_line(l, dbs, order):
             return
         if f[0] == "E" and len(f) > 2 and f[2] == "commit":
             order.last_commit_cmd = order.last_cmd
+            if len(f) > 4:
+                # per dictionary: the command of the latest commit event, the one before it, and whether the transaction
+                # of that earlier commit was still unflushed (no LevelDb `commit` call on this db in between) when the
+                # latest commit began
+                info = order.per_db.setdefault(f[4], {"last": -1, "prev": -1, "prev_unflushed": False, "flushes": 0})
+                if info["last"] != order.last_cmd:
+                    info["prev"], info["prev_unflushed"] = info["last"], (info["last"] >= 0 and info["flushes"] == 0)
+                    info["last"] = order.last_cmd
+                info["flushes"] = 0
         if f[0] == "D":
             op, name, k, v, ld, tx = f[1:7]
             h = dbs[name]
@@ -384,6 +397,8 @@ def _parse_line(l, dbs, order):
                 s = "E:%s" % k
             else:
                 s = op
+            if op == "commit" and name in order.per_db:
+                order.per_db[name]["flushes"] += 1
             h.ops.append(s)
             h.op_cmd.append(order.last_cmd)
             h.flags.append((ld, tx))
@@ -528,9 +543,14 @@ def gen_history(rnd, schema, steps, two_sessions=False, lookups=False):
             parts = [inp] + [gen_input(rnd, schema) for _ in range(rnd.choice([1, 1, 2]))]
             L += ["K %d %s" % (sid, sep.join(parts)), "F %d" % sid]
             note("commit-%d-entries" % len(parts))
-        elif r < 0.64:
+        elif r < 0.62:
             L += ["K %d %s," % (sid, inp)]
             note("commit-by-punct")
+        elif r < 0.66:
+            # a commit of its own that memorises nothing (punctuation on an empty composition) right behind a phrase commit:
+            # the phrase commit is then no longer the final one and has to be durable
+            L += ["K %d %s" % (sid, inp), "F %d" % sid, "K %d %s" % (sid, rnd.choice([",", "."]))]
+            note("commit-then-punct-commit")
         elif r < 0.78:
             L += ["K %d %s" % (sid, inp), "F %d" % sid]
             if rnd.random() < 0.4:
